@@ -28,7 +28,7 @@ func checkC15(p *Prog, l *Ledger) {
 	}
 	// ---- S1
 	m := cs.Clauses["*ast.PrintStatement"]
-	reText := regexp.MustCompile(`^NFC\((stringify\((ev@\S+)\.val\)@\S+|conv:string\((ev@\S+)\.val\))\)$`)
+	reText := regexp.MustCompile(`^NFC\((stringify\((ev\[[^\]]*\]@\S+)\.val\)@\S+|conv:string\((ev\[[^\]]*\]@\S+)\.val\))\)$`)
 	mon := Monitor{Init: "start|", Step: func(s string, ev *Event) string {
 		ps := strings.SplitN(s, "|", 2)
 		switch ev.Op {
